@@ -145,7 +145,21 @@ def deeper(n, seed):
 MALFORMED = ["", "(", ")", "name", "and", "protein and", "or water", "(protein", "protein)", "name CA and", "resid 1 to", "resid to 3", "index <", "< 5",
              "protein water", "not", "name =~", "5", "'CA'", "CA", "5 < 7", "name CA CB and", "protein and and water", "resid 1 2 to 3", "((protein)", "mass >"]
 
-FAMILIES = {"keywords": leaves_keywords, "implicit_eq": leaves_implicit, "lists": leaves_lists, "ranges": leaves_ranges, "cmp_ops": leaves_cmp,
+def parens_deep():
+    """nested parentheses, 3 to 8 deep, around leaves and inside boolean combinations"""
+    reps = ["protein", "name CA", "resid 1 to 3", "index < 5", "mass gt 12", "resSeq == 7", "resname ALA GLY", "name =~ 'C.*'"]
+    out = []
+    for k in (3, 4, 5, 6, 8):
+        for a in reps:
+            out.append("(" * k + a + ")" * k)
+    for a, b in itertools.permutations(reps[:6], 2):
+        out.append(f"((({a}))) and (({b}))")
+        out.append(f"not ((({a}) or (({b}))))")
+        out.append(f"(((({a} or {b})) and {a}))")
+    return out
+
+
+FAMILIES = {"parens_deep": parens_deep, "keywords": leaves_keywords, "implicit_eq": leaves_implicit, "lists": leaves_lists, "ranges": leaves_ranges, "cmp_ops": leaves_cmp,
             "regex": leaves_regex, "bool_depth1": depth1, "bool_depth2": depth2}
 
 
